@@ -18,18 +18,21 @@ EXPLAIN = "c19_explain"
 CASES_PER_FILE = 120
 CASE_FILE_BYTES = 120000
 CASE_TIMEOUT = 20
-TIERS = {"quick": {"n": 1500}, "thorough": {"n": 20000, "exhaustive": True}}
-RULE = ("three case kinds in rotation 4:4:2 - split: texts of 0-40 (some 200) code points over letters, digits, "
-        "spaces, the 8 line-break forms, their near misses (\\t \\x1c-\\x1e \\x84 \\x86 U+2027 U+202A) and the "
-        "substrings ' 28'/' 29', observed through list(iter_splitlines(t)) (and t.splitlines() to validate the "
-        "Spec); rev: byte contents of 0-40 (some 4-13 KB) bytes over ASCII, 2/3/4-byte UTF-8 characters, \\n, "
-        "\\r\\n, lone \\r (10%), \\v \\f, read with 3-5 block sizes from 1-9, len-1, len, len+1, 16, 4096/default "
-        "through io.BytesIO, a real binary file and a real UTF-8 text-mode file, optionally preseek=False at a "
-        "cursor; jsonl: JSON Lines files of 0-8 lines (ints, strings with multi-byte characters, corrupt, blank "
-        "and white-space lines, \\n/\\r\\n endings, 15% padded to 1-3 blocks of 4096 bytes with a \\r\\n or a "
-        "multi-byte character across a block edge), drained forward and in reverse, ignore_errors on/off; "
-        "non-trivial = split: >=2 breaks one of which is not \\n; rev: >=2 lines and a block edge inside the "
-        "content; jsonl: >=2 objects and >=1 skipped line; distinct = distinct case hash")
+TIERS = {"quick": {"n": 3000}, "thorough": {"n": 60000, "exhaustive": True}}
+RULE = ("four case kinds in rotation 3:1:4:2 - split: texts of 0-40 (some 200) code points over letters, digits, "
+        "spaces, the 8 line-break forms, their near misses (\\t \\x1c-\\x1e \\x84 \\x86 U+2027 U+202A; 1 text in 6 is "
+        "heavy in \\x1c-\\x1e) and the substrings ' 28'/' 29', observed through list(iter_splitlines(t)) (and "
+        "t.splitlines() to validate the Spec); indent: the same texts through indent(t, margin, newline); rev: byte "
+        "contents of 0-40 (some 4-13 KB) bytes over ASCII, 2/3/4-byte UTF-8 characters, \\n, \\r\\n, lone \\r (10%), "
+        "\\v \\f, read with 3-5 block sizes from 1-9, len-1, len, len+1, 16, 4096/default, 10^9 through io.BytesIO, a "
+        "real binary file, real utf-8 and latin-1 text-mode files and BytesIO with an encoding argument, optionally "
+        "preseek=False at a cursor; jsonl: JSON Lines files of 0-8 lines (ints, strings with multi-byte characters, "
+        "corrupt, blank and white-space lines, \\n/\\r\\n endings, 15% padded to 1-3 blocks of 4096 bytes with a "
+        "\\r\\n or a multi-byte character across a block edge), drained forward and in reverse, ignore_errors "
+        "on/off; thorough adds two complete small scopes (every text over {a,\\n,\\r,\\x85,U+2028} up to length 5; "
+        "every content over {a,\\n,\\r} up to length 7 with block sizes 1,2,3,5,default); non-trivial = "
+        "split/indent: >=2 breaks one of which is not \\n; rev: >=2 lines and a block edge inside the content; "
+        "jsonl: >=2 objects and >=1 skipped line; distinct = distinct case hash")
 ASSUMPTIONS = ["file content is UTF-8 (or arbitrary bytes in binary mode); block size >= 1",
                "reverse reader and JSONLIterator clauses: every \\r is followed by \\n (lone-\\r contents are only "
                "checked for model agreement and block-size independence)",
